@@ -206,8 +206,8 @@ theorem key_functions :
     TaskModel.Gen.HashFields.runModes.lookup "once" = some "hash.Name" ∧
     TaskModel.Gen.HashFields.runModes.lookup "when_changed" = some "hash.Hash" ∧
     TaskModel.Gen.HashFields.keyFuncs.lookup "hash.Hash" =
-      some ["hashstructure.Hash(t, hashstructure.FormatV2, nil)", "fmt.Sprintf(\"%s:%d\", t.Task, h)"] ∧
-    TaskModel.Gen.HashFields.keyFuncs.lookup "hash.Name" = some ["fmt.Sprintf(\"%s:%s\", t.Location.Taskfile, t.LocalName())"] ∧
+      some ["hashstructure.Hash(‹*ast.Task›, hashstructure.FormatV2, nil)", "fmt.Sprintf(\"%s:%d\", ‹*ast.Task›.Task, ‹uint64›)"] ∧
+    TaskModel.Gen.HashFields.keyFuncs.lookup "hash.Name" = some ["fmt.Sprintf(\"%s:%s\", ‹*ast.Task›.Location.Taskfile, ‹*ast.Task›.LocalName())"] ∧
     TaskModel.Gen.HashFields.keyFuncs.lookup "hash.Empty" = some ["return \"\""] := by decide
 
 /-- no field of the compiled task or of a command / dependency is silently dropped: every
